@@ -246,6 +246,26 @@ func (s *svc) api(method, path string, body any) (int, []byte, error) {
 	return resp.StatusCode, b, nil
 }
 
+// apiRaw sends a request whose path (below the API root) is already percent-encoded and whose body is given as bytes.
+func (s *svc) apiRaw(method, escapedPath string, body []byte) (int, []byte, error) {
+	var rd io.Reader
+	if body != nil {
+		rd = bytes.NewReader(body)
+	}
+	req, err := http.NewRequest(method, fmt.Sprintf("http://127.0.0.1:%d/api/ssm/v1%s", s.apiPort, escapedPath), rd)
+	if err != nil {
+		return 0, nil, err
+	}
+	c := http.Client{Timeout: 20 * time.Second, CheckRedirect: func(*http.Request, []*http.Request) error { return http.ErrUseLastResponse }}
+	resp, err := c.Do(req)
+	if err != nil {
+		return 0, nil, err
+	}
+	defer resp.Body.Close()
+	b, _ := io.ReadAll(resp.Body)
+	return resp.StatusCode, b, nil
+}
+
 func (s *svc) apiList() (map[string][]byte, error) {
 	code, b, err := s.api("GET", "/servers/ss/users", nil)
 	if err != nil {
@@ -413,6 +433,186 @@ func (s *svc) checkViews(model map[string][]byte, where string) string {
 	return ""
 }
 
+// unusualGen draws the unusual-document phase of a service case: the first two names of the family, one of
+// them twice, keys from a permutation of k0..k3, any member order / white space / spelling.
+var unusualGen = rapid.Custom(func(rt *rapid.T) *svcUnusual {
+	u := &svcUnusual{Follow: rapid.SampledFrom([]string{"delete", "rotate"}).Draw(rt, "follow"), Enc: rapid.IntRange(0, 2).Draw(rt, "enc")}
+	u.Doc.WS = rapid.IntRange(0, 3).Draw(rt, "ws")
+	perm := rapid.Permutation([]int{0, 1, 2, 3}).Draw(rt, "keys")
+	// two different names of the family, and one of them once more with a third key
+	for i := 0; i < 2; i++ {
+		u.Doc.Entries = append(u.Doc.Entries, docEntry{Name: i, Key: perm[i], Spell: rapid.IntRange(0, 2).Draw(rt, "spell")})
+	}
+	u.Doc.Entries = append(u.Doc.Entries, docEntry{Name: rapid.IntRange(0, 1).Draw(rt, "dupof"), Key: perm[2], Spell: rapid.IntRange(0, 2).Draw(rt, "dspell")})
+	// member order
+	order := rapid.Permutation(seq(len(u.Doc.Entries))).Draw(rt, "order")
+	es := make([]docEntry, len(order))
+	for i, j := range order {
+		es[i] = u.Doc.Entries[j]
+	}
+	u.Doc.Entries = es
+	return u
+})
+
+// runSvcUnusual: see svcUnusual. Returns a violation, or the model afterwards and trace entries
+// (model nil: could not observe).
+func runSvcUnusual(s *svc, u *svcUnusual, before map[string][]byte) (violation string, model map[string][]byte, trace []string) {
+	kl := s.kl
+	names := u.names()
+	content := u.Doc.bytes(names, kl)
+	meaning := u.Doc.meaning(names, kl)
+	if err := writeAtomically(s.path, content); err != nil {
+		return "HARNESS write: " + err.Error(), nil, nil
+	}
+	ok, err := s.sigusr1()
+	where := fmt.Sprintf("after the unusual document %q + SIGUSR1", content)
+	if err != nil {
+		return "SIG=C08/service/sigusr1-no-outcome " + where + ": " + err.Error(), nil, nil
+	}
+	listed, err := s.apiList()
+	if err != nil {
+		return "SIG=C08/service/api-list-broken " + where + ": " + err.Error(), nil, nil
+	}
+	if !ok {
+		// a document that names a user twice may be refused; then nothing may have changed
+		if !credx.SameUsers(listed, before) {
+			return fmt.Sprintf("SIG=C08/service/refused-reload-changed-state %s: reload reported as failed but the API lists %s, before %s", where, showNamed(listed, kl), showNamed(before, kl)), nil, nil
+		}
+		return "", before, []string{"unusual/dup-name-document-refused"}
+	}
+	good, choice := resolve(meaning, listed)
+	if !good {
+		return fmt.Sprintf("SIG=C08/service/duplicate-name-document/list-is-no-reading-of-the-file %s: API lists %s", where, showNamed(listed, kl)), nil, nil
+	}
+	model = listed
+	if v := s.checkViews(model, where); v != "" {
+		return v, nil, nil
+	}
+	// every key of the document that lost against another member of the same name must be refused
+	var dupName string
+	for n, cands := range meaning {
+		if len(cands) > 1 {
+			dupName = n
+		}
+		for _, k := range cands {
+			if bytes.Equal(k, model[n]) {
+				continue
+			}
+			if s.tcp {
+				if got, _ := s.tcpAccepts(k, false); got {
+					return fmt.Sprintf("SIG=C08/service/duplicate-name-document/tcp-acceptance %s: the API lists %s with %s, yet a client with %s (the other member of that name) is accepted",
+						where, showName(n), credx.KeyName(model[n], kl), credx.KeyName(k, kl)), nil, nil
+				}
+			}
+			if s.udp {
+				if got, _ := s.udpAccepts(k, false); got {
+					return fmt.Sprintf("SIG=C08/service/duplicate-name-document/udp-acceptance %s: the API lists %s with %s, yet a client with %s (the other member of that name) is accepted",
+						where, showName(n), credx.KeyName(model[n], kl), credx.KeyName(k, kl)), nil, nil
+				}
+			}
+		}
+	}
+	trace = append(trace, "unusual/sigusr1-dup-name-document-"+strings.Join(choice, "+"), "unusual/ws-"+wsNames[u.Doc.WS])
+	userPath := func(n string) string { return "/servers/ss/users/" + encSeg(n, u.Enc) }
+	getUser := func(n string) string {
+		code, body, err := s.apiRaw("GET", userPath(n), nil)
+		k, in := model[n]
+		var got struct {
+			Name string `json:"username"`
+			UPSK []byte `json:"uPSK"`
+		}
+		switch {
+		case err != nil:
+			return "SIG=C08/service/get-user/no-answer GET " + userPath(n) + ": " + err.Error()
+		case !in && code != 404:
+			return fmt.Sprintf("SIG=C08/service/get-user/unlisted-answered GET %s (name %s, not in the set %s) -> %d %.200q", userPath(n), showName(n), showNamed(model, kl), code, body)
+		case in && (code != 200 || json.Unmarshal(body, &got) != nil):
+			return fmt.Sprintf("SIG=C08/service/get-user/listed-not-found GET %s (name %s, in the set %s) -> %d %.200q", userPath(n), showName(n), showNamed(model, kl), code, body)
+		case in && (got.Name != n || !bytes.Equal(got.UPSK, k)):
+			return fmt.Sprintf("SIG=C08/service/get-user/wrong-user GET %s (name %s) reports %s with %s", userPath(n), showName(n), showName(got.Name), credx.KeyName(got.UPSK, kl))
+		}
+		return ""
+	}
+	for _, n := range names {
+		if v := getUser(n); v != "" {
+			return v + " " + where, nil, nil
+		}
+	}
+	freeKey := func() []byte {
+		for k := 0; k < nKeys; k++ {
+			used := false
+			for _, mk := range model {
+				used = used || bytes.Equal(mk, credx.Key(kl, k))
+			}
+			if !used {
+				return credx.Key(kl, k)
+			}
+		}
+		return nil
+	}
+	// the follow-up request on the user whose name stood twice in the file
+	if u.Follow == "delete" {
+		code, body, err := s.apiRaw("DELETE", userPath(dupName), nil)
+		if err != nil || !accepted(code) {
+			return fmt.Sprintf("SIG=C08/service/status-mismatch/after-duplicate-name-document DELETE %s (listed user %s) -> %d %s %v", userPath(dupName), showName(dupName), code, body, err), nil, nil
+		}
+		delete(model, dupName)
+	} else {
+		k := freeKey()
+		req, _ := json.Marshal(map[string]any{"uPSK": k})
+		code, body, err := s.apiRaw("PATCH", userPath(dupName), req)
+		if err != nil || !accepted(code) {
+			return fmt.Sprintf("SIG=C08/service/status-mismatch/after-duplicate-name-document PATCH %s (listed user %s) -> %d %s %v", userPath(dupName), showName(dupName), code, body, err), nil, nil
+		}
+		model[dupName] = k
+	}
+	if v := s.checkViews(model, where+" and "+u.Follow+" of "+showName(dupName)+" over HTTP"); v != "" {
+		return strings.Replace(v, "SIG=C08/service/", "SIG=C08/service/duplicate-name-document/after-"+u.Follow+"/", 1), nil, nil
+	}
+	trace = append(trace, "unusual/dup-name-then-"+u.Follow)
+	// look-alikes over real HTTP: make sure two names of the family are in the set, then delete ONE of them
+	for _, n := range names[:2] {
+		if _, in := model[n]; in {
+			continue
+		}
+		k := freeKey()
+		if k == nil {
+			break
+		}
+		req := `{"username":` + spellName(n, u.Enc) + `,"uPSK":"` + base64.StdEncoding.EncodeToString(k) + `"}`
+		code, body, err := s.apiRaw("POST", "/servers/ss/users", []byte(req))
+		if err != nil || !accepted(code) {
+			return fmt.Sprintf("SIG=C08/service/status-mismatch/add POST users %s -> %d %s %v", showName(n), code, body, err), nil, nil
+		}
+		model[n] = k
+	}
+	_, in0 := model[names[0]]
+	_, in1 := model[names[1]]
+	if in0 && in1 {
+		victim := names[u.Enc%2]
+		for _, n := range names {
+			if v := getUser(n); v != "" {
+				return v + " (with both look-alikes in the set)", nil, nil
+			}
+		}
+		code, body, err := s.apiRaw("DELETE", userPath(victim), nil)
+		if err != nil || !accepted(code) {
+			return fmt.Sprintf("SIG=C08/service/status-mismatch/delete DELETE %s (listed user %s, look-alike %s also listed) -> %d %s %v", userPath(victim), showName(victim), showName(names[1-u.Enc%2]), code, body, err), nil, nil
+		}
+		delete(model, victim)
+		if v := s.checkViews(model, "after DELETE "+userPath(victim)+" over HTTP with its look-alike in the set"); v != "" {
+			return v, nil, nil
+		}
+		for _, n := range names {
+			if v := getUser(n); v != "" {
+				return v + " (after the look-alike was deleted)", nil, nil
+			}
+		}
+		trace = append(trace, "unusual/http-per-user-requests-with-lookalike-present", "unusual/family-"+nameFamilies[u.Family].Label)
+	}
+	return "", model, trace
+}
+
 type svcStep struct {
 	File fileSpec `json:"file"`
 }
@@ -424,6 +624,28 @@ type svcPlan struct {
 	APIAdd     bool           `json:"api_add"`              // finish with POST users over HTTP (+ PATCH of another user) and data-path round trips
 	WaitSave   bool           `json:"wait_save"`            // ... and wait for the debounce save
 	Transports string         `json:"transports,omitempty"` // "tcp+udp" (default), "tcp-only", "udp-only"
+	Unusual    *svcUnusual    `json:"unusual,omitempty"`    // round 6: an unusual store document through SIGUSR1, then look-alike names over real HTTP
+}
+
+// svcUnusual: after the ordinary steps the operator writes a valid but unusual document (names of one
+// look-alike family, one of them twice with different keys, any member order / white space / JSON
+// spelling) and sends SIGUSR1; then the duplicated user is deleted or rotated over real HTTP with a
+// correctly percent-encoded path, and two look-alike names are added, fetched and one of them deleted.
+type svcUnusual struct {
+	Family int     `json:"family"`
+	Doc    docSpec `json:"doc"`    // names index the family's names (those of at most 4096 bytes); keys 0..3
+	Follow string  `json:"follow"` // delete / rotate
+	Enc    int     `json:"enc"`
+}
+
+func (u *svcUnusual) names() []string {
+	var out []string
+	for _, n := range nameFamilies[u.Family].Names {
+		if len(n) <= 4096 {
+			out = append(out, n)
+		}
+	}
+	return out
 }
 
 var recSvc = ev.New("C08", "service-sigusr1",
@@ -431,7 +653,7 @@ var recSvc = ev.New("C08", "service-sigusr1",
 		"wrong-length, truncated) then SIGUSR1 to the process; outcome taken from the service's log line; afterwards GET users over HTTP and "+
 		"real TCP/UDP clients per universe key through the relay to echo servers must match the file when valid, the previous set otherwise; "+
 		"optionally a final POST users and the real 5 s save. Non-trivial: a signal-triggered reload changed the set. Distinct key = outcome trace").
-	Require("sigusr1-changed-set")
+	Require("sigusr1-changed-set", "service-unusual/dup-name-then-delete", "service-unusual/dup-name-then-rotate", "service-unusual/http-per-user-requests-with-lookalike-present")
 
 func TestServiceSIGUSR1(t *testing.T) {
 	n := 2
@@ -468,6 +690,9 @@ func TestServiceSIGUSR1(t *testing.T) {
 		p.APIAdd = true
 		p.WaitSave = i == 0
 		p.Transports = []string{"udp-only", "tcp-only", "tcp+udp"}[(i+seed)%3]
+		p.Unusual = unusualGen.Example(seed*1000 + i)
+		p.Unusual.Family = (i*5 + seed*3) % len(nameFamilies)
+		p.Unusual.Follow = []string{"delete", "rotate"}[i%2]
 		// make sure the first step is a set-changing valid edit so every case is non-trivial
 		p.Steps[0].File = fileSpec{Users: map[string]int{"alice": (p.Initial["alice"] + 1) % nKeys, "dave": (p.Initial["alice"] + 2) % nKeys}}
 		if v := runSvcPlan(t, p); v != "" {
@@ -517,6 +742,27 @@ func runSvcPlan(t *testing.T, p svcPlan) string {
 			trace = append(trace, "refused")
 		}
 		if v := s.checkViews(model, where); v != "" {
+			return v
+		}
+	}
+	if p.Unusual != nil {
+		v, m2, tr2 := runSvcUnusual(s, p.Unusual, model)
+		if v != "" {
+			return v
+		}
+		if m2 == nil {
+			return "" // the service could not be observed (HARNESS skip); no label, the run is inconclusive
+		}
+		trace = append(trace, tr2...)
+		// back to the plain universe for the rest of the case
+		if err := writeAtomically(s.path, credx.EncodeStore(map[string][]byte{"carol": credx.Key(kl, 3)}, true)); err != nil {
+			t.Fatal(err)
+		}
+		if ok, err := s.sigusr1(); err != nil || !ok {
+			return fmt.Sprintf("SIG=C08/service/valid-file-refused after the unusual-document phase: a plain one-user store + SIGUSR1: reloaded=%v err=%v", ok, err)
+		}
+		model = map[string][]byte{"carol": credx.Key(kl, 3)}
+		if v := s.checkViews(model, "after the unusual-document phase (plain store + SIGUSR1)"); v != "" {
 			return v
 		}
 	}
@@ -612,6 +858,11 @@ func runSvcPlan(t *testing.T, p svcPlan) string {
 	}
 	if changed {
 		labels = append(labels, "sigusr1-changed-set")
+	}
+	for _, e := range trace {
+		if strings.HasPrefix(e, "unusual/") {
+			labels = append(labels, "service-"+e)
+		}
 	}
 	if strings.Contains(strings.Join(trace, ","), "refused") {
 		labels = append(labels, "sigusr1-invalid-refused")
